@@ -386,6 +386,201 @@ def subsets_cases(rng, nbase):
     return out
 
 
+# ------------------------------------------------------------------ long-lived objects: setter / call histories
+# One Particle object is driven through a random history of public setter assignments (every settable attribute,
+# including "back to unset" = NaN), copies (copy.deepcopy) and kinematic method calls.  At every call step the
+# values returned by the long-lived object are judged on the CURRENT attribute values: against the model
+# (correspondence), against the property oracle, and against a fresh object built from the same values.
+# In-place numpy writes to `data_` are NOT generated: the class documentation presents the setters ("the attributes
+# can be set or obtained with the corresponding functions") as the interface and mentions `data_` only as storage;
+# nothing in src/ or tests/ writes to it from outside.
+SET_FLOAT = ["t", "x", "y", "z", "mass", "E", "px", "py", "pz", "form_time", "xsecfac", "t_last_coll", "weight"]
+SET_INT = ["ID", "charge", "ncoll", "proc_id_origin", "proc_type_origin", "pdg_mother1", "pdg_mother2", "status",
+           "baryon_number", "strangeness"]
+PDG_CHOICES = [211, -211, 2212, 22, 21, 12, -14, 111, 1, -2, 321, 3122]
+
+
+def seq_start(start):
+    """start = {"mode": "empty"} | {"mode": "setters"|"Oscar2013", "values": {...}, "pdg": int|None}
+    -> (object, current float attributes, current pdg)"""
+    mode = start.get("mode", "empty")
+    if mode == "empty":
+        from sparkx.Particle import Particle
+        return Particle(), {k: NAN for k in ATTRS}, None
+    v = {k: float(x) for k, x in start["values"].items()}
+    pdg = start.get("pdg")
+    return make_particle(v, pdg, via_array=(mode == "Oscar2013")), {k: v.get(k, NAN) for k in ATTRS}, pdg
+
+
+def exec_sequence(start, steps):
+    """Run a history on ONE object. Returns the observations of its call steps:
+    [(step index, current values, current pdg, {method: result})]"""
+    import copy
+    obj, cur, pdg = seq_start(start)
+    obs = []
+    for i, st in enumerate(steps):
+        if st[0] == "set":
+            _, attr, value = st
+            with warnings.catch_warnings():
+                warnings.simplefilter("ignore")
+                setattr(obj, attr, value)
+            if attr in ATTRS:
+                cur[attr] = float(value)
+            elif attr == "pdg":
+                pdg = int(value)
+        elif st[0] == "copy":
+            obj = copy.deepcopy(obj)
+        elif st[0] == "call":
+            obs.append((i, dict(cur), pdg, {m: call(obj, m) for m in st[1]}))
+        else:
+            raise ValueError(f"unknown step {st!r}")
+    return obs
+
+
+def gen_value(rng, old):
+    r = rng.random()
+    if r < 0.12:
+        return NAN                      # back to unset
+    if r < 0.20 and old == old:
+        return -old                     # pure sign flip
+    if r < 0.26 and old == old:
+        return old                      # same value again
+    if r < 0.32:
+        return rng.choice([0.0, -0.0])
+    if r < 0.55:
+        return sgn(rng) * float(rng.randint(1, 12))
+    return sgn(rng) * lu(rng, -3, 3)
+
+
+def gen_sequence(rng):
+    mode = rng.choice(["empty", "setters", "setters", "Oscar2013"])
+    if mode == "empty":
+        start = dict(mode="empty")
+        cur = {k: NAN for k in ATTRS}
+    else:
+        v, _ = rng.choice([gen_generic, gen_generic, gen_signs])(rng)
+        if mode == "setters":
+            for k in rng.sample(ATTRS, rng.choice([0, 0, 1, 3])):
+                v[k] = NAN
+        pdg = rng.choice(PDG_CHOICES) if (mode == "Oscar2013" or rng.random() < 0.7) else None
+        start = dict(mode=mode, values=dict(v), pdg=pdg)
+        cur = dict(v)
+    steps = []
+
+    def add_call():
+        ms = list(METHODS)
+        rng.shuffle(ms)
+        if rng.random() < 0.5:
+            ms = ms[:rng.randint(1, 5)]
+        steps.append(["call", ms])
+    if rng.random() < 0.7:
+        add_call()
+    for _ in range(rng.randint(3, 14)):
+        r = rng.random()
+        if r < 0.62:
+            attr = rng.choice(ATTRS + ["px", "py", "pz", "E", "t", "z"])  # kinematic slots twice as often
+            val = gen_value(rng, cur.get(attr, NAN))
+            cur[attr] = val
+            steps.append(["set", attr, val])
+        elif r < 0.72:
+            attr = rng.choice([a_ for a_ in SET_FLOAT if a_ not in ATTRS])
+            steps.append(["set", attr, gen_value(rng, NAN)])
+        elif r < 0.80:
+            steps.append(["set", rng.choice(SET_INT), rng.choice([NAN, float(rng.randint(-3, 3))])])
+        elif r < 0.90:
+            steps.append(["set", "pdg", rng.choice(PDG_CHOICES)])
+        else:
+            steps.append(["copy"])
+        if rng.random() < 0.75:
+            add_call()
+    if steps[-1][0] != "call":
+        add_call()
+    return start, steps
+
+
+def judge_sequence(start, steps):
+    """-> list of (step index, key, what, detail) : property failures of the long-lived object.
+    A failure that a fresh object with the same attribute values does not show gets the key `instance-reuse-<key>`."""
+    out = []
+    for i, cur, pdg, got in exec_sequence(start, steps):
+        fresh = dict(zip(METHODS, real_all(cur, pdg)))
+        merged = dict(fresh)
+        merged.update(got)
+        fresh_keys = {k for k, _, _ in check_particle(cur, pdg, fresh)}
+        for key, what, detail in check_particle(cur, pdg, merged):
+            if key in fresh_keys:
+                out.append((i, key, what, detail))
+            else:
+                m = next((m_ for m_ in got if not agree(got[m_], fresh[m_])), None)
+                out.append((i, "instance-reuse-" + key,
+                            what + f" — on an object with a setter/call history (step {i}); a fresh Particle with the same "
+                                   f"attribute values gives {fresh[m] if m else 'a correct value'}",
+                            dict(detail, fresh={k: list(r) for k, r in fresh.items()})))
+    return out
+
+
+def shrink_sequence(start, steps, key):
+    def fails(st, sp):
+        try:
+            return any(k == key for _, k, _, _ in judge_sequence(st, sp))
+        except Exception:  # noqa: BLE001
+            return False
+    hits = [i for i, k, _, _ in judge_sequence(start, steps) if k == key]
+    if not hits:
+        return start, steps
+    steps = [list(x) for x in steps[:hits[0] + 1]]
+    # the failing call: one method if possible
+    for m in list(steps[-1][1]):
+        cand = steps[:-1] + [["call", [m]]]
+        if fails(start, cand):
+            steps = cand
+            break
+    changed = True
+    while changed:
+        changed = False
+        for j in range(len(steps) - 1):
+            cand = steps[:j] + steps[j + 1:]
+            if fails(start, cand):
+                steps, changed = cand, True
+                break
+            if steps[j][0] == "call" and len(steps[j][1]) > 1:
+                for m in steps[j][1]:
+                    cand = steps[:j] + [["call", [m]]] + steps[j + 1:]
+                    if fails(start, cand):
+                        steps, changed = cand, True
+                        break
+                if changed:
+                    break
+    if start.get("mode") != "empty":
+        # move the start values into explicit setter steps, then drop what is not needed
+        pre = [["set", k, x] for k, x in start["values"].items() if x == x]
+        if start.get("pdg") is not None:
+            pre.append(["set", "pdg", start["pdg"]])
+        if fails(dict(mode="empty"), pre + steps):
+            start, steps = dict(mode="empty"), pre + steps
+            changed = True
+            while changed:
+                changed = False
+                for j in range(len(steps) - 1):
+                    cand = steps[:j] + steps[j + 1:]
+                    if fails(start, cand):
+                        steps, changed = cand, True
+                        break
+    for j, st in enumerate(steps):
+        if st[0] == "set" and isinstance(st[2], float) and st[2] == st[2]:
+            for digits in (1, 2, 3):
+                cand = [list(x) for x in steps]
+                cand[j][2] = float(f"%.{digits}g" % st[2])
+                if cand[j][2] != st[2] and fails(start, cand):
+                    steps = cand
+                    break
+    return start, steps
+
+
+def corpus_sequences():
+    return [c for c in corpus() if c.get("kind") == "sequence"]
+
+
 # ------------------------------------------------------------------ correspondence (tie C)
 def correspond(ctx):
     rng = ctx.rng
@@ -393,6 +588,8 @@ def correspond(ctx):
                 "bit-neighbourhoods of every threshold in the methods (1e-10 regulators, 1e-6 phi cut, t=|z|, |E|=|pz|, |E|=p, p=0), "
                 "negative energies, every sign combination (negative / zero / positive) of (t,z) and (E,pz) with |z| <,==,> |t| "
                 "(random + an exhaustive 12x12 grid), all 2^8 unset subsets x pdg set/unset/massless; all 11 methods per particle; "
+                "plus long-lived objects: random histories of setter assignments (all settable attributes, incl. back to unset), "
+                "deepcopies and method calls on ONE object, every call judged on the current attribute values; "
                 "non-trivial = at least one method returns a finite value, a vector or raises (i.e. not everything unset); "
                 "distinct by the bit patterns of the 8 attributes + pdg")
     fallback = getattr(ctx, "translator_fallback", False)
@@ -401,7 +598,8 @@ def correspond(ctx):
         n = max(n, 20000)
     cases = []
     for case in corpus():
-        cases.append((dict(case["values"]), case.get("pdg"), "corpus"))
+        if case.get("kind") != "sequence":
+            cases.append((dict(case["values"]), case.get("pdg"), "corpus"))
     cases += sign_grid_cases()
     gens = [gen_generic] * 4 + [gen_ultra] * 2 + [gen_boundary] * 3 + [gen_negE] + [gen_signs] * 2
     for _ in range(n):
@@ -440,6 +638,32 @@ def correspond(ctx):
                     f"{bad}: code {real[j]} vs model {model[j] if model else out[:60]} on {v} pdg={pdg} [{tag}]",
                     case=dict(values={k: f2h(v.get(k, NAN)) for k in ATTRS}, floats=v, pdg=pdg, category=tag, methods=bad))
     ctx.cov["correspondence_cases"] = len(cases)
+    # ---- long-lived objects: the model on the CURRENT attribute values vs the object with a history
+    seqs = [(c["start"], c["steps"], "corpus") for c in corpus_sequences()]
+    seqs += [gen_sequence(rng) + ("random",) for _ in range(ctx.n(150, 4000))]
+    states = []
+    for si, (start, steps, tag) in enumerate(seqs):
+        for i, cur, pdg, got in exec_sequence(start, steps):
+            states.append((si, i, cur, pdg, got))
+    outs = common.run_driver("C08", [enc(cur, pdg) for _, _, cur, pdg, _ in states])
+    nbad = 0
+    for (si, i, cur, pdg, got), out in zip(states, outs):
+        model = parse_model(out)
+        md = dict(zip(METHODS, model)) if model else {}
+        ctx.case(("seq", si, i) + canon(cur, pdg) + tuple(sorted(got)), any(kind_of(r) != "nan" for r in got.values()))
+        ctx.count("seq/call-steps")
+        bad = [m for m, r in got.items()
+               if m not in md or not (agree_loose(m, r, md[m], cur) if fallback else agree(r, md[m]))]
+        if bad and nbad < 3:
+            nbad += 1
+            start, steps, tag = seqs[si]
+            ctx.brk("correspondence-broken",
+                    f"object with a setter/call history, step {i}: {bad}: code {got[bad[0]]} vs model {md.get(bad[0])} "
+                    f"on current values {cur} pdg={pdg}",
+                    case=dict(kind="sequence", start=start, steps=steps[:i + 1], methods=bad))
+    ctx.count("seq/histories", len(seqs))
+    ctx.cov["sequence_histories"] = len(seqs)
+    ctx.cov["sequence_call_steps"] = len(states)
 
 
 # ------------------------------------------------------------------ the property on the real code (oracle)
@@ -737,6 +961,8 @@ def search(ctx, budget_s):
 
     # corpus first
     for case in corpus():
+        if case.get("kind") == "sequence":
+            continue
         v = {k: float(x) for k, x in case["values"].items()}
         report(check_particle(v, case.get("pdg")), v, case.get("pdg"), "corpus")
         n += 1
@@ -750,6 +976,27 @@ def search(ctx, budget_s):
         ctx.case(("oracle",) + canon(v, pdg), True)
         n += 1
     ctx.count("oracle/sign-grid", len(SIGN_GRID) ** 2)
+    # long-lived objects driven through setter / copy / call histories
+    seqs = [(c["start"], c["steps"], "corpus") for c in corpus_sequences()]
+    seqs += [gen_sequence(rng) + ("random",) for _ in range(ctx.n(250, 6000))]
+    nsteps = 0
+    for start, steps, tag in seqs:
+        nsteps += sum(1 for st in steps if st[0] == "call")
+        for i, key, what, detail in judge_sequence(start, steps):
+            if key in found:
+                continue
+            found[key] = 1
+            st2, sp2 = shrink_sequence(start, steps, key)
+            again = [it for it in judge_sequence(st2, sp2) if it[1] == key]
+            if again:
+                i, key, what, detail = again[0]
+            ctx.violation(key, what, dict(input=dict(kind="sequence", start=st2, steps=sp2, category="history/" + tag),
+                                          detail=detail, how_to_replay="./check C08 --replay <this file>  (re-runs the history "
+                                          "on a new object in a new process)"))
+        ctx.case(("oracle-seq", json.dumps([start, steps], sort_keys=True, default=str)), True)
+        n += 1
+    ctx.count("oracle/histories", len(seqs))
+    ctx.count("oracle/history-call-steps", nsteps)
     limit = ctx.n(3000, 200000)
     gens = [gen_generic] * 3 + [gen_ultra] * 2 + [gen_boundary] * 4 + [gen_negE] + [gen_signs] * 3
     negE_finite = 0
@@ -797,12 +1044,33 @@ def corpus():
     return out
 
 
+def replay_sequence(ctx, path, inp):
+    start, steps = inp["start"], inp["steps"]
+    print(f"[C08] history on one Particle object: start={start}")
+    for i, st in enumerate(steps):
+        print(f"[C08]   step {i}: {st}")
+    for i, cur, pdg, got in exec_sequence(start, steps):
+        fresh = dict(zip(METHODS, real_all(cur, pdg)))
+        print(f"[C08] step {i}: object with history -> {got}")
+        print(f"[C08] step {i}: fresh object        -> { {m: fresh[m] for m in got} }   (values {cur}, pdg {pdg})")
+    items = judge_sequence(start, steps)
+    if items:
+        print(f"VIOLATION property=C08 replay={path}")
+        for i, key, what, _ in items:
+            print(f"  [{key}] step {i}: {what}")
+        return 1
+    print("[C08] replay: property holds along this history now")
+    return 0
+
+
 def replay(ctx, path):
     d = json.loads(open(path).read())
     inp = d.get("input")
     if not inp:
         print(f"[C08] replay file names a broken obligation, not an input: {d.get('broken')}")
         return 1
+    if inp.get("kind") == "sequence":
+        return replay_sequence(ctx, path, inp)
     v = {k: float(x) for k, x in inp["values"].items()}
     pdg = inp.get("pdg")
     items = check_particle(v, pdg)
